@@ -5,6 +5,8 @@ Import ListNotations.
 From Zn.spec Require Import ScopeSpec.
 From Zn.model Require Import Scope.
 From Zn.proofs Require Import ScopeProofs.
+From Zn.model Require SemDefs Sem.
+From Zn.proofs Require SemBase SemScope.
 Open Scope Z_scope.
 
 (* ====================================================================================== *)
@@ -144,3 +146,66 @@ Qed.
 (* ====================================================================================== *)
 (* end of the symbol-table section (program-level theorems about the evaluator follow here) *)
 (* ====================================================================================== *)
+
+
+(* ====================================================================================== *)
+(* program level                                                                           *)
+(*   the same guarantees for everything the *evaluator* (model/Sem.v = pkg/exec/eval*.go +  *)
+(*   pkg/runtime/vm.go) does with its symbol stack while it runs a block, a call, a handler: *)
+(*   corollaries of the control-state balance theorem over all programs, depths and fuels.   *)
+(*   [resolves_as st x] = (name, depth, constness, value if constant) of the symbol x names. *)
+(* ====================================================================================== *)
+Module Program.
+Import SemDefs Sem SemBase SemScope.
+
+(* a finished block — ended normally, by 输出, by a loop signal or by an error — leaves every name resolving to
+   the symbol it resolved to before (inner names gone, shadowed names back) and every constant with its value *)
+Theorem C06_program_block_scoping : forall n k st b x, wf st ->
+  match exec_block (eval_expr n) k st b with
+  | Ok _ s1 | Er _ s1 => resolves_as s1 x = resolves_as st x /\ depth s1 = depth st
+  | _ => True
+  end.
+Proof. exact block_scoping. Qed.
+Print Assumptions C06_program_block_scoping.
+
+Theorem C06_program_constants_keep_value : forall n k st b x d v, wf st ->
+  resolves_as st x = Some (x, d, true, Some v) ->
+  match exec_block (eval_expr n) k st b with
+  | Ok _ s1 | Er _ s1 => resolves_as s1 x = Some (x, d, true, Some v)
+  | _ => True
+  end.
+Proof. exact block_keeps_constants. Qed.
+Print Assumptions C06_program_constants_keep_value.
+
+(* any expression, in particular any call however deep, only adds symbols of the caller's current block on top
+   (得到 bindings): no symbol of the caller is removed, re-typed, or — if constant — changed *)
+Theorem C06_program_calls_keep_names : forall n st e v s1, wf st -> eval_expr n st e = Ok v s1 ->
+  exists new, shape s1 = new ++ shape st /\ Forall (fun t => sh_depth t = depth st) new.
+Proof. exact call_keeps_callers_names. Qed.
+Print Assumptions C06_program_calls_keep_names.
+
+(* assignment to a constant is refused with 44 and changes nothing at all *)
+Theorem C06_program_assign_const_refused : forall st x v s,
+  find_sym x (syms st) = Some s -> s_const s = true -> vm_set st x v = Er (ERun E_CONST) st.
+Proof. exact assign_const_refused. Qed.
+Print Assumptions C06_program_assign_const_refused.
+
+(* non-vacuity: 令A恒为1；令B=2 then the block { 令A=5；令C=6；B=7 }: afterwards A is the constant 1 of depth 1,
+   C is unknown, B is still the variable of depth 1 *)
+Example C06_program_witness :
+  let one := 4607182418800017408 in let two := 4611686018427387904 in
+  let st0 := push_frame init_state 1 None in
+  match decl_pairs (eval_expr 20) 20 [(true, [100], ENum one); (false, [101], ENum two)] (begin_scope st0) with
+  | Ok _ st =>
+    wf st /\
+    match exec_block (eval_expr 20) 20 st
+            [(1, SDecl [(false, [100], ENum two)]); (2, SDecl [(false, [102], ENum two)]);
+             (3, SExpr (EAssignVar 101 (ENum one)))] with
+    | Ok _ s1 => resolves_as s1 100 = Some (100, 1%nat, true, Some (VNum one)) /\ resolves_as s1 102 = None /\
+                 resolves_as s1 101 = Some (101, 1%nat, false, None) /\ vm_find s1 101 = Ok (VNum one) s1
+    | _ => False
+    end
+  | _ => False
+  end.
+Proof. vm_compute. repeat split; try reflexivity; try discriminate; repeat constructor. Qed.
+End Program.
